@@ -5,6 +5,19 @@ V = os.path.dirname(os.path.dirname(os.path.abspath(__file__)))
 props = [json.loads(l) for l in open(os.path.join(V, "properties.jsonl"))]
 
 CHECKS = {
+ "C04": dict(
+    level="model_checking",
+    text="Bytecode.tla explores, per emitted function, the complete control-flow graph of the compiler's actual output as a TLC "
+         "behaviour (worklist dataflow over abstract states: operand-stack height, handler stack, pending finally-return, exception "
+         "in flight; exceptional, JumpFinally and EndFinally edges included) and reports any fetch outside the code, operand naming a "
+         "missing constant/local/captured variable, underflow, jump into an operand, or instruction reached with two heights or two "
+         "handler stacks. Inputs: every function of the 546 repository scripts and core.yl, programs sized by measurement to sit on / "
+         "around every encoding limit (each must be rejected, or be accepted and print the known answer), and the programs generated "
+         "for the other properties.",
+    note="Name resolution (the access reads the variable the source names) is decided dynamically by the C05/C06 replays. The "
+         "opcode effect table is transcribed from vm.rs. Jump-limit programs (64 KiB of code) go through Bytecode.tla in the thorough tier only.",
+    technique="TLA+ spec + TLC exhaustive path exploration of exported bytecode; limit programs with known answers",
+    design="4 C04"),
  "C01": dict(
     level="model_checking",
     text="Heap.tla transcribes Heap::collect pass by pass (mark_roots, trace_references loop, sweep) with root handles; "
